@@ -116,10 +116,28 @@ pub trait GraphNameIndex: TermIndex {
 //
 
 /// A generic implementation of [`TermIndex`].
-#[derive(Clone, Debug, Default)]
+#[derive(Debug, Default)]
 pub struct SimpleTermIndex<I: Index> {
     t2i: HashMap<SimpleTerm<'static>, I>,
     i2t: Vec<SimpleTerm<'static>>,
+}
+
+impl<I: Index> Clone for SimpleTermIndex<I> {
+    fn clone(&self) -> Self {
+        let t2i = self.t2i.clone();
+        // the terms in i2t borrow their data from the keys of t2i (see ensure_index),
+        // so the clone's i2t must be rebuilt from the clone's own keys
+        // (cloning self.i2t would keep borrowing from the keys of self.t2i).
+        let mut i2t: Vec<Option<SimpleTerm<'static>>> = vec![None; t2i.len()];
+        for (t, i) in &t2i {
+            let t2 = t.as_simple();
+            // the following is safe, for the same reason as in ensure_index
+            let t2: SimpleTerm<'static> = unsafe { std::mem::transmute(t2) };
+            i2t[i.into_usize()] = Some(t2);
+        }
+        let i2t = i2t.into_iter().map(Option::unwrap).collect();
+        Self { t2i, i2t }
+    }
 }
 
 impl<I: Index> SimpleTermIndex<I> {
